@@ -10,7 +10,7 @@
 use std::sync::atomic::{AtomicBool, AtomicU64, Ordering::SeqCst};
 use std::sync::Mutex;
 
-use oxidd::{Manager, ManagerRef};
+use oxidd::{Manager, ManagerRef, Subst, Substitution};
 
 use crate::ext::BoolExt;
 use crate::kinds::{g_json, Kind};
@@ -69,6 +69,30 @@ where
         let mref = s.mref.clone();
         let mut all: Vec<(u64, Value)> = Vec::new();
 
+        // substitution objects created by all application threads at the same
+        // moment and kept alive together: the ids are the events' data
+        if F::HAS_QUANT {
+            let f0: F = table.lock().unwrap().slots[0].clone().unwrap();
+            let bar = std::sync::Barrier::new(app_threads);
+            let per_thread = if thorough { 2000 } else { 1500 };
+            let objs: Vec<Vec<Subst<F>>> = std::thread::scope(|sc| {
+                let hs: Vec<_> = (0..app_threads)
+                    .map(|_| {
+                        let bar = &bar;
+                        let f0 = f0.clone();
+                        sc.spawn(move || {
+                            bar.wait();
+                            (0..per_thread).map(|_| Subst::new(vec![0u32], vec![f0.clone()])).collect::<Vec<_>>()
+                        })
+                    })
+                    .collect();
+                hs.into_iter().map(|h| h.join().expect("harness: substids thread")).collect()
+            });
+            let ids: Vec<Vec<u32>> = objs.iter().map(|v| v.iter().map(|s| s.id()).collect()).collect();
+            s.out.emit(json!({"ev":"substids","ids":ids}));
+            drop(objs);
+        }
+
         std::thread::scope(|sc| {
             let mut handles = Vec::new();
             for tid in 0..app_threads {
@@ -101,9 +125,16 @@ where
                             if c < 50 {
                                 let op = BIN_OPS[trng.below(8)];
                                 (op.to_string(), json!({}), Some(catch(|| bin_call(op, &fs[0], &fs[1]))))
-                            } else if c < 58 {
+                            } else if c < 56 {
                                 used = 1;
                                 ("not".into(), json!({}), Some(catch(|| fs[0].not())))
+                            } else if c < 62 && F::HAS_QUANT {
+                                // a substitution object of this thread's own (the
+                                // replacement is held until the event is stamped)
+                                used = 1;
+                                let v = trng.below(n as usize) as u32;
+                                let sub = Subst::new(vec![v], vec![fs[1].clone()]);
+                                ("subst".into(), json!({"pairs":[[v, ids[1]]]}), Some(catch(|| fs[0].subst(&sub))))
                             } else if c < 72 {
                                 used = 3;
                                 ("ite".into(), json!({}), Some(catch(|| fs[0].ite(&fs[1], &fs[2]))))
